@@ -562,10 +562,11 @@ func retryLoopsWait(c *kit.Ctx) {
 	hre := c.Anchor("", "client", "handleResultError")
 	preOK := false
 	if hre != nil && nsre != nil {
-		for _, call := range kit.Calls(hre, hrpcRI+"MarkUnavailable") {
-			if _, ok := typeAssertEdge(call.Block(), nsre); ok {
-				preOK = true
-			}
+		if e, found := afterClassAlways(hre, nsre, func(x ssa.Instruction) bool {
+			call, ok := x.(*ssa.Call)
+			return ok && kit.CalleeName(call) == hrpcRI+"MarkUnavailable"
+		}, nil); found && e == nil {
+			preOK = true
 		}
 		c.Check(preOK, hre, "nsre-precondition", hre.Pos(), "NotServingRegionError case marks the region unavailable", "handleResultError no longer marks the region unavailable on NotServingRegionError: the tabled waitless cycle would spin")
 	}
